@@ -102,6 +102,12 @@ pub fn gen_random(seed: u64, idx: u64) -> Plan {
                 let mut h = e.h2(j, r.range(0, 30));
                 // half of the uploads do not announce their length
                 h.no_length = e.body.is_some() && r.chance(1, 2);
+                if let Some(b) = &e.body {
+                    if !b.is_empty() && r.chance(1, 2) {
+                        // several DATA frames, some of them empty
+                        h.frames = (0..r.range(1, 5)).map(|_| if r.chance(1, 4) { 0 } else { r.usize_in(1, b.len()) }).collect();
+                    }
+                }
                 c.h2.push(h);
                 c.reqs.push(echo_plan(&e, nonce, true));
             } else {
